@@ -62,19 +62,19 @@ def run(prog):
                         if st["k"] == "assign" and st["lhs"]["l"] == v and not st["lhs"].get("proj"):
                             empt.add(b)
                 part = {cs.bb for cs in te.calls if cs.bb in body and _recv(cs) == v and cs.callee.name in PARTIAL and not _is_emptying(cs)}
-                name = g.local_name(v) or "_%d" % v
-                key = "%s:buffer@%s" % (fn.npath, name)
+                bname = g.local_name(v) or "_%d" % v
+                key = "%s:buffer@%s" % (fn.npath, bname)
                 n_buf = True
                 if _path(cfg, body, pb, pb, empt | part, via=h):
                     out.append(inst("NC", key, VIOLATION, g, None,
                                     "`%s` collects the parts of one item and is carried over to the next iteration: on some path it "
                                     "is filled, consumed into `%s` and filled again without having been emptied (clear, drain(..), a "
                                     "fresh Vec), so the previous item's parts become part of the next item"
-                                    % (name, g.local_name(w) or "_%d" % w)))
+                                    % (bname, g.local_name(w) or "_%d" % w)))
                 elif _path(cfg, body, pb, pb, empt, via=h):
-                    out.append(inst("NC", key, UNDECIDED, g, None, "`%s` is only partly emptied (pop/remove/…) on some path between two items" % name))
+                    out.append(inst("NC", key, UNDECIDED, g, None, "`%s` is only partly emptied (pop/remove/…) on some path between two items" % bname))
                 else:
-                    out.append(inst("NC", key, OK, g, None, "`%s` is emptied or re-created between any two items" % name))
+                    out.append(inst("NC", key, OK, g, None, "`%s` is emptied or re-created between any two items" % bname))
             # ---- loop form
             for h, body in sorted(cfg.loop_headers.items()):
                 its = [cs for cs in te.calls if cs.bb in body and cs.callee.name == "next" and cs.args and
@@ -177,6 +177,36 @@ def run(prog):
                     out.append(inst("NC", "%s:shrunk@%s" % (fn.npath, cs.callee.name), VIOLATION, g, cs.line,
                                     "the collected items are thinned out by `%s` (%s): items of the input are dropped (the result "
                                     "then has extra models)" % (cs.callee.name, show(cs.args[0])[:40])))
+        # ---- what a loop collects is part of the result: a vector that is pushed onto inside a loop and carried from one
+        # iteration to the next holds items (or subtrees made of items) when the loop ends; if nothing reads it after the
+        # loop, those items are gone (a working list whose leftovers are never composed into the tree)
+        if name == "from_cnf":
+            g = fn
+            te, cfg = g.terms, g.cfg
+            for h, body in sorted(cfg.loop_headers.items()):
+                carried = {}
+                for cs in te.calls:
+                    if cs.bb in body and cs.callee.name in ("push", "push_back", "extend", "append") and cs.args and "Vec" in cs.callee.key():
+                        r = strip(cs.args[0])
+                        if r[0] == "mutref" and (h, r[1]) in te.mu_init and "DTree" in show(cs.args[1] if len(cs.args) > 1 else ()) + (g.local_ty(r[1]) if hasattr(g, "local_ty") else "DTree"):
+                            carried[r[1]] = cs
+                for v, cs0 in sorted(carried.items()):
+                    mu = ("mu", h, v)
+                    used = te.ret is not None and (strip(te.ret) == mu or mu in set(mir.subterms(te.ret)))
+                    for cs in te.calls:
+                        if used:
+                            break
+                        if cs.bb in body:
+                            continue
+                        for a in cs.args:
+                            if strip(a) == mu or mu in set(mir.subterms(a)):
+                                used = True
+                    nm = g.local_name(v) or "_%d" % v
+                    out.append(inst("NC", "%s:carried@%s" % (fn.npath, nm), OK if used else VIOLATION, g, cs0.line,
+                                    "what the loop leaves in `%s` goes into the result" % nm if used else
+                                    "the loop pushes subtrees onto `%s` and carries it from one iteration to the next, but nothing reads it "
+                                    "after the loop: whatever is still on it when the loop ends (a clause no step selected - an empty "
+                                    "clause, a clause over variables the order does not list) is not in the tree" % nm))
         if n == 0:
             out.append(inst("NC", "%s:items" % fn.npath, UNDECIDED, fn, None, "no loop or iterator chain over %s recognised" % (markers,)))
         # ---- and no clause is invented: every leaf the dtree builder makes holds one of the formula's clauses
